@@ -83,3 +83,34 @@ Definition crop {A} (F : frame A) (r0 c0 h w : Z) : frame A :=
   mkFrame h w (fun r c => f_at F (r + r0) (c + c0)).
 Definition crop_ok {A} (F : frame A) (r0 c0 h w : Z) : Prop :=
   0 <= r0 /\ r0 + h <= f_nr F /\ 0 <= c0 /\ c0 + w <= f_nc F.
+
+(* ---------------------------------------------------------------- two kinds of data in a pixel state
+
+   The state of a pixel holds the INPUT data (radiometry and mask values of the two images), which no
+   step rewrites, and the PRODUCTS (cost curves, disparities, flags), which the steps rewrite.  A step
+   like cbca reads the products of the pixels of its support region AND the images further away; the
+   property counts the disparity interval once for that (and once more for cross-checking), not once
+   per step that looks at the images.  Hence two data cones:
+
+   [local2 pi H f DS DI M]: [pi] projects a state on its input part.  Whenever the cones of radii M lie
+   inside the two rasters, the two rasters hold the same STATES on the cones of radii DS and the same
+   INPUT parts on the cones of radii DI, then f F r c = f G r' c'.
+   With "f keeps pi" (the step does not rewrite the input part), state cones add under composition
+   while the input cone of "f then g" is the larger of g's input cone and g's state cone plus f's input
+   cone. *)
+Definition agree_via {A I} (pi : A -> I) (F G : frame A) (R : radii) (r c r' c' : Z) : Prop :=
+  forall a b, in_cone R a b -> pi (f_at F (r + a) (c + b)) = pi (f_at G (r' + a) (c' + b)).
+
+Definition local2 {A I B} (pi : A -> I) (H : side A) (f : op A B) (DS DI M : radii) : Prop :=
+  forall F G r c r' c',
+    cone_in F M r c -> cone_in G M r' c' ->
+    agree_on F G DS r c r' c' -> agree_via pi F G DI r c r' c' -> H F r c ->
+    f F r c = f G r' c'.
+
+Definition keeps {A I} (pi : A -> I) (f : op A A) : Prop := forall F r c, pi (f F r c) = pi (f_at F r c).
+
+Inductive chain2 {A I} (pi : A -> I) : side A -> list (op A A) -> radii -> radii -> radii -> Prop :=
+| chain2_nil : chain2 pi no_side [] rad0 rad0 rad0
+| chain2_cons : forall H s DS DI M Hrest rest DSs DIs Ms,
+    rad_wf DS -> rad_wf DI -> rad_wf M -> keeps pi s -> local2 pi H s DS DI M -> chain2 pi Hrest rest DSs DIs Ms ->
+    chain2 pi (side_comp H s Hrest DSs) (s :: rest) (radd DSs DS) (rmax DIs (radd DSs DI)) (rmax Ms (radd DSs M)).
